@@ -65,6 +65,7 @@ def _same(a, b):
 
 
 _MON = {}
+_HANGS = [0]        # runs that did not return, seen by this worker process
 
 
 def _monitor(mkmod):
@@ -122,7 +123,9 @@ class C02:
                'lf.linear_fit_points(points[l:r]) and <detector>.knee(points[l:r]) evaluated by the harness on the slices; '
                'loop iterations counted with sys.monitoring line events on the `stack.pop()` line']
     timeout = 20.0          # harness-level guard per case
-    impl_timeout = 5.0      # the implementation's own budget per call (typical run: milliseconds)
+    impl_timeout = 3.0      # the implementation's own budget per call (typical run: milliseconds)
+    oracle_timeout = 1.0    # one <detector>.knee evaluation for the tables
+    oracle_budget = 3.0     # all slow oracle evaluations of one case
     shard = 250
 
     # ------------------------------------------------------------------ generation
@@ -210,10 +213,30 @@ class C02:
                     smemo[(l, r)] = 'exc'
             return smemo[(l, r)]
 
+        kbudget = [self.oracle_budget]
+
+        def guarded_knee(p):
+            # a single-knee detector that does not return on a slice (C09's business, but it must not stall this check): each
+            # evaluation runs under its own alarm and the case has a total budget; afterwards the entry is simply missing
+            if kbudget[0] <= 0:
+                raise RuntimeError('oracle budget exhausted')
+            t0 = time.monotonic()
+            signal.setitimer(signal.ITIMER_REAL, min(self.oracle_timeout, kbudget[0]), 1.0)
+            try:
+                return o_knee(p)
+            except Timeout:
+                kbudget[0] = 0.0
+                raise RuntimeError('detector did not return')
+            finally:
+                signal.setitimer(signal.ITIMER_REAL, max(0.2, t_end - time.monotonic()), 1.0)
+                dt = time.monotonic() - t0
+                if dt > 0.05:
+                    kbudget[0] -= dt
+
         def K(l, r):
             if (l, r) not in kmemo:
                 try:
-                    k = o_knee(pts[l:r])
+                    k = guarded_knee(pts[l:r])
                     if k is None:
                         kmemo[(l, r)] = None
                     else:
@@ -365,6 +388,12 @@ class C02:
             lf.smape_points, lf.linear_r2_points, mod.knee = o_smape, o_r2, o_knee
         c['out'] = as_nat_list(out) if st == 'ok' else None
         c['exc'] = None if st == 'ok' else str(out)
+        if c['exc'] == 'Timeout':
+            # the first non-returning runs of a worker are documented in full (tables, replay); further ones are handed to the
+            # driver as plain time-outs so that its cap on time-outs (core.MAX_TIMEOUTS) ends a hopeless run early
+            _HANGS[0] += 1
+            if _HANGS[0] > 2:
+                raise Timeout()
         c['pops'] = m['cnt'][0] if (m is not None and not (st == 'exc' and out == 'Timeout')) else None
 
         # ---- oracle tables: complete for n <= 8, otherwise the keys the implementation touched and the keys the recursion needs
@@ -397,7 +426,7 @@ class C02:
         # ---- the two real sub-calls of the decomposition
         k0 = K(0, n)
         c['outL'] = c['outR'] = None
-        if isinstance(k0, int) and k0 + 1 <= n:
+        if isinstance(k0, int) and k0 + 1 <= n and c['exc'] != 'Timeout':
             sl, ol = impl(pts[:k0 + 1], self.impl_timeout / 2)
             sr, orr = impl(pts[k0 + 1:], self.impl_timeout / 2)
             c['outL'] = as_nat_list(ol) if sl == 'ok' else None
@@ -439,11 +468,20 @@ class C02:
         base = {k: c[k] for k in ('det', 'family', 'points', 't1spec', 't1kind', 't2', 'via', 'cost') if k in c}
         if 't1' in c:
             base['t1spec'] = ['fixed', c['t1']]
-        for j in range(len(pts)):
-            if len(pts) > 2:
-                d = dict(base)
-                d['points'] = pts[:j] + pts[j + 1:]
-                out.append(d)
+        if c.get('exc') == 'Timeout' or c.get('timeout'):
+            # every candidate costs seconds: halves and thirds only
+            m = len(pts)
+            for a, b in ((0, m // 2 + 1), (m // 2, m), (0, 2 * m // 3 + 1), (m // 3, m), (1, m), (0, m - 1)):
+                if 2 <= b - a < m:
+                    d = dict(base)
+                    d['points'] = pts[a:b]
+                    out.append(d)
+        else:
+            for j in range(len(pts)):
+                if len(pts) > 2:
+                    d = dict(base)
+                    d['points'] = pts[:j] + pts[j + 1:]
+                    out.append(d)
         if c['t2'] > TMIN[c['det']]:
             d = dict(base)
             d['t2'] = c['t2'] - 1
